@@ -132,6 +132,11 @@ def run_case(run, drv, case_seed, max_len):
             raw0 = open(m["path"], "rb").read()
             before = refspec.lenient_decode(raw0)
             case["requests"].append({"req": req, "cli": via_cli})
+            if rng.random() < 0.15:
+                # a leftover of an interrupted earlier edit sits next to the metafile
+                case["requests"][-1]["stale_part"] = True
+                with open(m["path"] + ".part", "wb") as fd:
+                    fd.write(raw0[:len(raw0) // 2])
             try:
                 apply_request_impl(m["path"], dict(req), via_cli)
             except Exception as exc:
